@@ -14,6 +14,7 @@ type Case struct {
 	Tree  *Node
 	Vals  []Valuation
 	XSeed int64 // seed of the Extra printing (0 = no Extra printing)
+	Leafy bool  // third printing: minimal plus every literal operand parenthesised
 
 	// filled by the executor
 	MinText, FullText, ExtraText string
@@ -89,7 +90,7 @@ func mk(o *Op, sig int, sub map[int]*Node) *Node {
 
 // nameLeaves gives every leaf a variable (cycling through the pool of its type, left to
 // right) and makes the operand that sits immediately left of a `??` a nullable variable.
-func nameLeaves(root *Node, lit bool) {
+func nameLeaves(root *Node, lit bool, class string) {
 	idx := map[Ty]int{}
 	var rec func(n *Node)
 	rec = func(n *Node) {
@@ -106,6 +107,9 @@ func nameLeaves(root *Node, lit bool) {
 			n.Var = pool[idx[n.Ty]%len(pool)]
 			idx[n.Ty]++
 			n.Lit = lit
+			if lit && class != "" && n.Ty == TI {
+				n.LitText = litClasses[class][n.Var]
+			}
 			return
 		}
 		for _, k := range n.Kids {
@@ -122,6 +126,7 @@ func nameLeaves(root *Node, lit bool) {
 			if v, ok := nullable[l.Ty]; ok {
 				l.Var = v
 				l.Lit = false
+				l.LitText = ""
 			}
 		}
 	})
@@ -146,18 +151,58 @@ func hasAddSub(root *Node) bool {
 }
 
 type styleSpec struct {
-	name string
-	lit  bool
-	sp   int
-	bare bool
+	name   string
+	lit    bool
+	sp     int
+	bare   bool
+	class  string // numeric literal class ("" = plain decimal ints)
+	negDet bool   // unary minus detached
+}
+
+func hasOp(root *Node, name string) bool {
+	r := false
+	root.walk(func(n *Node) {
+		if n.Op != nil && n.Op.Name == name {
+			r = true
+		}
+	})
+	return r
+}
+
+// classStyles: the numeric-literal-class styles of a tree (only the plain statement context
+// uses them). all=false (triples) keeps one spacing per class.
+func classStyles(t *Node, all bool) []styleSpec {
+	var st []styleSpec
+	addsub := hasAddSub(t)
+	neg := hasOp(t, "neg")
+	names := litClassNames
+	if !all {
+		names = []string{"num"}
+	}
+	for _, cl := range names {
+		st = append(st, styleSpec{name: cl, lit: true, class: cl})
+		if addsub {
+			st = append(st, styleSpec{name: cl + "-sp1", lit: true, sp: 1, class: cl})
+			if all {
+				st = append(st, styleSpec{name: cl + "-sp2", lit: true, sp: 2, class: cl})
+			}
+		}
+		if neg && all {
+			st = append(st, styleSpec{name: cl + "-nd", lit: true, class: cl, negDet: true})
+		}
+	}
+	if neg && all {
+		st = append(st, styleSpec{name: "lit-nd", lit: true, negDet: true})
+	}
+	return st
 }
 
 func stylesFor(t *Node, thoroughSp bool) []styleSpec {
-	st := []styleSpec{{"var", false, 0, false}, {"lit", true, 0, false}}
+	st := []styleSpec{{name: "var"}, {name: "lit", lit: true}}
 	if hasAddSub(t) {
-		st = append(st, styleSpec{"lit-sp1", true, 1, false})
+		st = append(st, styleSpec{name: "lit-sp1", lit: true, sp: 1})
 		if thoroughSp {
-			st = append(st, styleSpec{"var-sp1", false, 1, false}, styleSpec{"lit-sp2", true, 2, false}, styleSpec{"var-sp2", false, 2, false})
+			st = append(st, styleSpec{name: "var-sp1", sp: 1}, styleSpec{name: "lit-sp2", lit: true, sp: 2}, styleSpec{name: "var-sp2", sp: 2})
 		}
 	}
 	return st
@@ -165,8 +210,15 @@ func stylesFor(t *Node, thoroughSp bool) []styleSpec {
 
 func styled(t *Node, s styleSpec) *Node {
 	c := t.clone()
-	nameLeaves(c, s.lit)
+	nameLeaves(c, s.lit, s.class)
 	setSp(c, s.sp)
+	if s.negDet {
+		c.walk(func(n *Node) {
+			if n.Op != nil && n.Op.Name == "neg" {
+				n.NegDet = true
+			}
+		})
+	}
 	return c
 }
 
@@ -197,10 +249,22 @@ func genPairs(vals []Valuation) []*Case {
 								sfx = "@" + ctx
 							}
 							for _, st := range stylesFor(t, true) {
-								cs = append(cs, &Case{Key: base + st.name + sfx, Class: "pair", Style: st.name, Ctx: ctx, Tree: styled(t, st), Vals: vals})
+								cs = append(cs, &Case{Key: base + st.name + sfx, Class: "pair", Style: st.name, Ctx: ctx, Tree: styled(t, st), Vals: vals, Leafy: st.lit})
+							}
+							if ctx == "" {
+								// numeric literal classes: skipped when the tree has no numeric operand
+								// (its text would equal the `lit` style's)
+								plain, _ := render(styled(t, styleSpec{name: "lit", lit: true}), Min, nil)
+								for _, st := range classStyles(t, true) {
+									tt := styled(t, st)
+									if txt, _ := render(tt, Min, nil); txt == plain {
+										continue
+									}
+									cs = append(cs, &Case{Key: base + st.name, Class: "pair", Style: st.name, Tree: tt, Vals: vals, Leafy: true})
+								}
 							}
 							if p.Name == "pow" && i == 1 && c.Kind == KPre {
-								for _, st := range []styleSpec{{"bare-var", false, 0, true}, {"bare-lit", true, 0, true}} {
+								for _, st := range []styleSpec{{name: "bare-var", bare: true}, {name: "bare-lit", lit: true, bare: true}} {
 									tt := styled(t, st)
 									tt.BareRhs = true
 									cs = append(cs, &Case{Key: base + st.name + sfx, Class: "pair", Style: st.name, Ctx: ctx, Tree: tt, Vals: vals})
@@ -224,6 +288,14 @@ func genTriples(vals []Valuation, keep func(key string) bool) []*Case {
 		}
 		for _, st := range stylesFor(t, false) {
 			cs = append(cs, &Case{Key: key + "/" + st.name, Class: "triple", Style: st.name, Tree: styled(t, st), Vals: vals})
+		}
+		plain, _ := render(styled(t, styleSpec{name: "lit", lit: true}), Min, nil)
+		for _, st := range classStyles(t, false) {
+			tt := styled(t, st)
+			if txt, _ := render(tt, Min, nil); txt == plain {
+				continue
+			}
+			cs = append(cs, &Case{Key: key + "/" + st.name, Class: "triple", Style: st.name, Tree: tt, Vals: vals})
 		}
 	}
 	for _, p := range ops {
@@ -309,6 +381,9 @@ func (g *randGen) gen(ty Ty, depth int, parent *Op, pos int) *Node {
 	if c.o.Name == "add" || c.o.Name == "sub" {
 		n.Sp = []int{0, 0, 1, 2}[g.rng.Intn(4)]
 	}
+	if c.o.Name == "neg" {
+		n.NegDet = g.rng.Intn(4) == 0
+	}
 	return n
 }
 
@@ -324,6 +399,9 @@ func (g *randGen) leaf(ty Ty) *Node {
 	}
 	n := leaf(ty, pool[g.rng.Intn(len(pool))])
 	n.Lit = g.rng.Intn(2) == 0
+	if n.Lit && ty == TI && g.rng.Intn(2) == 0 {
+		n.LitText = numLitPool[g.rng.Intn(len(numLitPool))]
+	}
 	return n
 }
 
@@ -338,6 +416,7 @@ func fixNullable(root *Node) {
 			if v, ok := nullable[l.Ty]; ok {
 				l.Var = v
 				l.Lit = false
+				l.LitText = ""
 			}
 		}
 	})
